@@ -14,8 +14,13 @@
  *                                      so that a failure of a later request which depends on it keeps it when the history is shrunk.)
  *   setpen <pen> | chpen <pen>         <pen> = `-` or a comma separated list in attribute order, e.g.
  *                                      fg=200#0a0b0c,bg=-1,b=1,u=2,i=0,rv=1,strike=0,af=3,blink=1,sizepos=2
+ *   suspend                            tickit_term_pause(tt) then tickit_term_resume(tt): the program is stopped and continued.
+ *                                      (One operation, so that no request ever falls between the two halves: the documented
+ *                                      protocol allows nothing but resume after pause.)
  *
  * Observations:  x: `b=<hex of the bytes written> pen=<cached pen>`      g: `n=<chpen calls> d=<delta> f=<final> pen=<cached pen>`
+ *   suspend      x: `p=<hex of the bytes written by pause> b=<hex of the bytes written by resume> pen=<cached pen>`
+ *                g: `pause=<driver pause calls> resume=<driver resume calls> order=<p|r|c per driver call> n=<chpen calls> d= f= pen=`
  */
 #define HCOMMON_MAIN
 #include "hcommon.h"
@@ -112,6 +117,8 @@ struct GridDriver {
   TickitTermDriver driver;
   int colors;
   int ncalls;
+  int npause, nresume;
+  char order[16]; int norder;
   char delta[512], final[512];
 };
 
@@ -124,6 +131,7 @@ static bool gd_chpen(TickitTermDriver *d, const TickitPen *delta, const TickitPe
 {
   struct GridDriver *gd = (struct GridDriver *)d;
   gd->ncalls++;
+  if(gd->norder < 15) gd->order[gd->norder++] = 'c';
   fmt_pen(gd->delta, sizeof gd->delta, delta);
   fmt_pen(gd->final, sizeof gd->final, final);
   return true;
@@ -137,9 +145,21 @@ static bool gd_getctl(TickitTermDriver *d, TickitTermCtl ctl, int *value)
 static bool gd_setctl_int(TickitTermDriver *d, TickitTermCtl ctl, int v) { (void)d; (void)ctl; (void)v; return false; }
 static bool gd_setctl_str(TickitTermDriver *d, TickitTermCtl ctl, const char *v) { (void)d; (void)ctl; (void)v; return false; }
 static void gd_destroy(TickitTermDriver *d) { free(d); }
+static void gd_pause(TickitTermDriver *d)
+{
+  struct GridDriver *gd = (struct GridDriver *)d;
+  gd->npause++;
+  if(gd->norder < 15) gd->order[gd->norder++] = 'p';
+}
+static void gd_resume(TickitTermDriver *d)
+{
+  struct GridDriver *gd = (struct GridDriver *)d;
+  gd->nresume++;
+  if(gd->norder < 15) gd->order[gd->norder++] = 'r';
+}
 
 static TickitTermDriverVTable gd_vtable = {
-  .destroy = gd_destroy,
+  .destroy = gd_destroy, .pause = gd_pause, .resume = gd_resume,
   .print = gd_true3, .goto_abs = gd_goto, .move_rel = gd_goto, .scrollrect = gd_scroll, .erasech = gd_erasech,
   .clear = gd_clear, .chpen = gd_chpen, .getctl_int = gd_getctl, .setctl_int = gd_setctl_int, .setctl_str = gd_setctl_str,
 };
@@ -172,6 +192,22 @@ static void obs_cached(void)
 }
 
 static void do_request(int set, const char *pentext);
+
+/* the program is stopped and continued */
+static void do_suspend(void)
+{
+  if(mode == 'g') {
+    gd->ncalls = gd->npause = gd->nresume = gd->norder = 0;
+    memset(gd->order, 0, sizeof gd->order);
+    strcpy(gd->delta, "?"); strcpy(gd->final, "?");
+  }
+  tickit_term_pause(tt);
+  if(mode == 'x') { obs("p="); obs_hex(outb, outn); outn = 0; obs(" "); }
+  tickit_term_resume(tt);
+  if(mode == 'x') obs_out();
+  else            obs("pause=%d resume=%d order=%s n=%d d=%s f=%s", gd->npause, gd->nresume, gd->norder ? gd->order : "-", gd->ncalls, gd->delta, gd->final);
+  obs_cached();
+}
 
 static void op_new(int argc, char **argv)
 {
@@ -230,6 +266,7 @@ static void engine_op(int argc, char **argv)
     for(size_t i = 0; i < n; i++) obs(" %u/%u", xterm256[i].as16, xterm256[i].as8);
     return;
   }
+  if((mode == 'x' || mode == 'g') && argc == 1 && strcmp(argv[0], "suspend") == 0) { do_suspend(); return; }
   if((mode != 'x' && mode != 'g') || argc != 2) { obs("bad-op"); return; }
   int set;
   if(strcmp(argv[0], "setpen") == 0) set = 1;
